@@ -231,6 +231,33 @@ Theorem C12_succeeds_adv_limit_refuted :
 Proof. exact c12_succeeds_adv_limit_refuted. Qed.
 Print Assumptions C12_succeeds_adv_limit_refuted.
 
+(* ---- flatten (flatten f) ------------------------------------------------------------------------------ *)
+
+(* The consolidation-level statement C12_idempotent (Props/C12.v) has no hypothesis.  Whole function:
+   under the hypotheses of C12_succeeds, applying FlattenBatches to ANY result [out] of the first
+   application (the new file control carries the original figures, so [inf] describes it too)
+   succeeds in the same sense, every batch passes Create again, and nothing is consolidated: the
+   result list of the second application is [out] itself — for every processing order and map
+   order of the second run.  (The file header's creation date / time is not part of the model.) *)
+Theorem C12_reflatten : forall hd sp ip ap inf inp out r',
+  std_file inp -> inp <> nil -> i_hdr_ok inf = true ->
+  kinds_consistent inp -> Forall traces_nodup inp ->
+  Forall (fun b => Arith.validate_batch GA (f_batch GA (hp_of hd) (fp_of sp) b) = Arith.ROk) inp ->
+  Forall (hdr_pair hd) (ids inp) ->
+  i_count inf = sum_ids cnt_e inp -> i_debit inf = sum_ids (db_e GT sp) inp -> i_credit inf = sum_ids (cr_e GT sp) inp ->
+  cat_rule inp ->
+  i_debit inf <= Arith.t_file_limit GA -> i_credit inf <= Arith.t_file_limit GA ->
+  flatten_spec inp out ->
+  flatten_full_spec GA GT GTT hd sp ip ap inf out r' ->
+  (fst r' = FOk \/ (fst r' = FErrValidate /\ file_ctl_ok GA (snd r') = false))
+  /\ Offsets.fc_count (af_ctl (snd r')) = i_count inf
+  /\ Offsets.fc_debit (af_ctl (snd r')) = i_debit inf
+  /\ Offsets.fc_credit (af_ctl (snd r')) = i_credit inf
+  /\ exists all', r' = finish GA GT GTT hd sp ip ap inf all' /\ finalize all' = out
+       /\ Forall (fun x => created GA GT hd sp x /\ StronglySorted trace_lt (b_entries x)) (pre all').
+Proof. exact c12_reflatten. Qed.
+Print Assumptions C12_reflatten.
+
 (* ---- the executable models of the correspondence are instances of the specification ------------ *)
 
 Theorem C12_full_stable_admissible : forall hd sp ip ap inf inp,
